@@ -35,7 +35,7 @@ pub struct PoolEntry {
     pub fq: &'static str,
 }
 
-pub const POOL: [PoolEntry; 18] = [
+pub const POOL: [PoolEntry; 19] = [
     PoolEntry { name: "counter ca", kind: RType::Counter, fq: "ca" },
     PoolEntry { name: "counter cb{x=1}", kind: RType::Counter, fq: "cb" },
     PoolEntry { name: "gauge g", kind: RType::Gauge, fq: "g" },
@@ -59,6 +59,8 @@ pub const POOL: [PoolEntry; 18] = [
     // different names and kinds, identical help text and label names
     PoolEntry { name: "counter eqa (help 'same help')", kind: RType::Counter, fq: "eqa" },
     PoolEntry { name: "gauge eqb (help 'same help')", kind: RType::Gauge, fq: "eqb" },
+    // a large family (70 children) whose first label has values in strict-prefix relation
+    PoolEntry { name: "int gauge vec big[a,b] 70 children, a in {'', x, db, db1, db10}", kind: RType::Gauge, fq: "big" },
 ];
 
 /// Pool members used by C07 (everything except the same-name/different-kind collectors).
@@ -159,6 +161,18 @@ pub fn make(i: usize) -> (Box<dyn Collector>, Vec<RFamily>) {
             g.set(7.5);
             (Box::new(g), one("eqb", "same help", RType::Gauge, RMetric { gauge: Some(7.5), ..Default::default() }))
         }
+        18 => {
+            let v = prometheus::IntGaugeVec::new(Opts::new("big", "help big"), &["a", "b"]).unwrap();
+            let mut ms = vec![];
+            let firsts = ["db1", "", "db", "x", "db10"];
+            for i in 0..70usize {
+                let a = firsts[i % 5];
+                let b = format!("{:03}", (i * 37) % 70);
+                v.with_label_values(&[a, b.as_str()]).set(i as i64);
+                ms.push(RMetric { labels: lbl(&[("a", a), ("b", b.as_str())]), gauge: Some(i as f64), ..Default::default() });
+            }
+            (Box::new(v), vec![RFamily { name: "big".into(), help: "help big".into(), typ: RType::Gauge, metrics: ms }])
+        }
         _ => {
             // an IntCounterVec without children: registered but contributes no family
             let v = IntCounterVec::new(Opts::new("empty", "help empty"), &["l"]).unwrap();
@@ -217,6 +231,9 @@ pub fn reference_gather(members: &[usize], cfg: &RegConfig) -> Vec<RFamily> {
 }
 
 pub struct GatherRun {
+    /// gather() after the first registered member has been unregistered again
+    pub after_unregister: Vec<MetricFamily>,
+    pub unregistered: usize,
     pub members: Vec<usize>,
     pub reg_order: Vec<usize>,
     pub collect_order: Vec<usize>,
@@ -259,7 +276,12 @@ pub fn enumerate_orders(members: &[usize], cfg: &RegConfig, all_reg_orders: bool
                 *gathers += 1;
                 let order = log.lock().unwrap().clone();
                 if seen.insert(order.clone()) {
-                    visit(&GatherRun { members: members.to_vec(), reg_order: ro.iter().map(|&p| members[p]).collect(), collect_order: order, label_order: lo.clone(), cfg: cfg.clone(), result });
+                    let first = members[ro[0]];
+                    let after_unregister = match reg.unregister(make(first).0) {
+                        Ok(()) => crate::watchdog::case(|| format!("gather after unregister of {:?} under {:?}", members, cfg), || reg.gather()),
+                        Err(e) => return Err(format!("unregister {}: {}", POOL[first].name, e)),
+                    };
+                    visit(&GatherRun { after_unregister, unregistered: first, members: members.to_vec(), reg_order: ro.iter().map(|&p| members[p]).collect(), collect_order: order, label_order: lo.clone(), cfg: cfg.clone(), result });
                 }
             }
         }
